@@ -27,8 +27,8 @@ m = {
     "version": 1,
     "setup_cmd": "./check --setup",
     "hooks": {
-        "guard": "avl_savefile_verif (cargo feature of savefile-abi)",
-        "enable": "harness is built with --features hooks, which enables savefile-abi/avl_savefile_verif",
+        "guard": "none: no hook or instrumentation was added to /repo (a cargo feature `avl_savefile_verif` was planned for lock traces and turned out not to be needed)",
+        "enable": "nothing to enable: the harness observes /repo through its public API only (run-time AbiExportable implementations, instrumented Read/Write objects, generated cdylibs)",
         "baseline_off_cmd": "cd /repo && cargo test --workspace --no-fail-fast --offline",
         "source_commits": HOOK_COMMITS,
         "add_only": True,
